@@ -1,2 +1,5 @@
-import AlgoVerif.Common
-/-! # C12 — property theorems (none yet) -/
+import AlgoVerif.Model.C10
+/-! # C12 — property theorems (under construction) -/
+open AlgoVerif AlgoVerif.Gram AlgoVerif.C10
+
+theorem C12_placeholder : (union [1, 2] [2, 3] : List Nat) = [1, 2, 3] := by decide
